@@ -31,7 +31,7 @@ quick.append(job("c19.linear", secs=60, allow=INEX, which=0, n=2, p=1, icpt=0, x
 for icpt in (0, 1):
     quick.append(job("c19.linear", secs=30, allow=INEX, which=0, n=3, p=2, icpt=icpt, xconst=1))
     quick.append(job("c19.linear", secs=60, allow=FIT, which=1, n=2, p=1, icpt=icpt, xconst=1, iters=1, qto=200000))
-quick.append(job("c19.multitask", secs=60, allow=FIT, n=2, p=1, t=1, icpt=0, xconst=1, qto=200000))
+quick.append(job("c19.multitask", secs=60, allow=FIT, n=2, p=1, t=1, icpt=0, xconst=1, qto=20000))
 
 # scalers: standard (3 variants), min-max (default and symbolic range), max-abs, three norms
 for which in range(9):
